@@ -45,6 +45,7 @@ TRUSTED = ['harness/fxp_lib.py randomness recovery; harness/props/c05.py interpr
 
 TYPES = [(11, 5), (24, 8), (53, 11)]
 KEY_ZERO = 'C05-add-zero-operand'
+KEY_POW2 = 'C05-input-near-power-of-two'
 CMPS = {'lt': lambda a, b: a < b, 'le': lambda a, b: a <= b, 'eq': lambda a, b: a == b,
         'ne': lambda a, b: a != b, 'ge': lambda a, b: a >= b, 'gt': lambda a, b: a > b}
 
@@ -182,7 +183,7 @@ def rnd_float(rng, s, emax, bits=None):
     mant = rng.getrandbits(bits) | (1 << (bits - 1)) if bits > 1 else 1
     x = mant / (1 << bits)            # in [1/2, 1)
     if rng.random() < 0.15:
-        x = rng.choice([0.5, 1.0 - 2.0 ** -53, 0.75, 0.5 + 2.0 ** -(s - 1), 1.0 - 2.0 ** -(s - 1), 0.5 + 2.0 ** -s])
+        x = rng.choice([0.5, 1.0 - 2.0 ** -53, 0.75, 0.5 + 2.0 ** -min(s - 1, 30), 1.0 - 2.0 ** -(s - 1), 0.5 + 2.0 ** -min(s, 30)])
     e = rng.randrange(-emax, emax + 1)
     return rng.choice([-1, 1]) * x * 2.0 ** e
 
@@ -239,6 +240,8 @@ def gen_cases(rng, se, n, kind):
     return cases
 
 
+DIRECTED_POW2 = [{'op': 'io', 'x': (256.00000000000006).hex(), 'y': None, 'pub': False},
+                 {'op': 'add', 'x': (1.5).hex(), 'y': (2.0 ** -8 * (1 + 2.0 ** -52)).hex(), 'pub': True}]
 DIRECTED_ZERO = [{'op': 'add', 'x': (0.0).hex(), 'y': (1.5 * 2.0 ** -40).hex(), 'pub': False},
                  {'op': 'sub', 'x': (1.0).hex(), 'y': (1.0).hex(), 'pub': False, 'then': ('add', (1.5 * 2.0 ** -40).hex())}]
 
@@ -246,6 +249,14 @@ DIRECTED_ZERO = [{'op': 'add', 'x': (0.0).hex(), 'y': (1.5 * 2.0 ** -40).hex(), 
 # ---------------------------------------------------------------------------------------------
 # oracle
 # ---------------------------------------------------------------------------------------------
+def near_pow2(x):
+    """x = 2^k (1 + d) with 0 < d <= 2^-40: the class of the known constructor finding"""
+    if x == 0:
+        return False
+    m, _e = math.frexp(abs(x))
+    return 0 < m - 0.5 <= 2.0 ** -41
+
+
 def val(raw, f):
     S, _fl, E = raw
     return Fr(S, 1 << f) * (Fr(2) ** E)
@@ -258,6 +269,10 @@ def check_case(se, c, rec, p=None):
     u = Fr(1, 1 << (s - 1))
     out = []
     if 'error' in rec:
+        hexes = [c['x'], c.get('y'), (c.get('then') or (None, None))[1]]
+        if rec['error'].startswith('AssertionError') and any(h is not None and near_pow2(float.fromhex(h)) for h in hexes):
+            return [('pow2', f"secflt({[float.fromhex(h) for h in hexes if h is not None and near_pow2(float.fromhex(h))][0]!r}) "
+                             f"raised {rec['error']}")]
         return [('crash', f"{c['op']} raised {rec['error']}")]
 
     def normal(raw, what):
@@ -395,6 +410,9 @@ def run(ctx):
     for cfg in ((1, 0, False), (3, 1, False)):
         res = run_cases(cfg, (11, 8), DIRECTED_ZERO, ctx.seed + 5)
         results.append({'key': 'zero', 'cfg': list(cfg), 'se': [11, 8], 'cases': DIRECTED_ZERO, 'res': res})
+    for cs in DIRECTED_POW2:
+        res = run_cases((1, 0, False), (24, 8), [cs], ctx.seed + 6)
+        results.append({'key': 'pow2', 'cfg': [1, 0, False], 'se': [24, 8], 'cases': [cs], 'res': res})
     items = []
     for r in results:
         handle(ctx, r, items)
@@ -410,7 +428,7 @@ def handle(ctx, r, items=None):
         ctx.violation(f'C05: run did not complete: {res["error"]}',
                       {'kind': 'flt', 'cfg': r['cfg'], 'se': r['se'], 'cases': r['cases'], 'seed': ctx.seed})
         return
-    zero_reported = False
+    reported = set()
     for c, rec in zip(r['cases'], res['recs']):
         nz = 'a' in rec and rec['a'][0] != 0 and ('b' not in rec or rec['b'][0] != 0)
         ctx.case((se, c['op'], repr(rec.get('a')), repr(rec.get('b')), repr(rec.get('z'))), nontrivial=nz)
@@ -420,10 +438,10 @@ def handle(ctx, r, items=None):
         for kind, msg in check_case(se, c, rec):
             rep = {'kind': 'flt', 'cfg': r['cfg'], 'se': r['se'], 'cases': [c], 'seed': ctx.seed, 'check': kind,
                    'observed': {k: v for k, v in rec.items() if not k.startswith('calls')}}
-            if kind == 'zero':
-                if not zero_reported:
-                    zero_reported = True
-                    rep['finding_key'] = KEY_ZERO
+            if kind in ('zero', 'pow2'):
+                if kind not in reported:
+                    reported.add(kind)
+                    rep['finding_key'] = KEY_ZERO if kind == 'zero' else KEY_POW2
                     ctx.violation('C05: ' + msg, rep)
                 continue
             ctx.violation('C05: ' + msg, rep)
@@ -444,9 +462,9 @@ def replay(ctx, data):
     for c, rec in zip(data['cases'], res['recs']):
         for kind, msg in check_case(tuple(data['se']), c, rec):
             if key:
-                if kind == 'zero':
+                if kind == {KEY_ZERO: 'zero', KEY_POW2: 'pow2'}.get(key):
                     msgs.append(msg)
-            elif kind != 'zero':
+            elif kind not in ('zero', 'pow2'):
                 msgs.append(msg)
     if msgs:
         return False, msgs[0]
